@@ -4,4 +4,4 @@ From GrolGen Require Import Gen_Consts.
 From GrolModel Require Import Ast Lexer Parser Printer AstWf Frontend TokPrint.
 Extraction Language OCaml.
 Extraction "front_model.ml" front_parse front_tokens roundtrip clean print_program quote_in_domain go_quote
-  format idempotent_on node_tok program_nil_free program_printable token_STRING token_EOF token_EOL lex_all frag_tokens.
+  format idempotent_on node_tok program_nil_free program_printable token_STRING token_EOF token_EOL lex_all frag_tokens frag_prog_tokens.
